@@ -305,6 +305,56 @@ def enum_crashes(seed):
             "stopped before every rename / unlink / rmdir in turn (rmtree deleting entry by entry), followed by a fresh listing that reads every metadata file", "cases": cases, "failures": fails}
 
 
+def enum_interrupted_then_repeated(seed):
+    """an install whose writing of the package's files (add_data) was interrupted, followed by a complete install of the same package: the
+    installed package holds the files of the complete run only, never a mix of the two writes"""
+    import tempfile
+    import pkgcore.vdb.repo_ops as V
+    scratch = tempfile.mkdtemp(prefix="c29b.", dir=os.environ.get("PYVC_SCRATCH", "/var/tmp"))
+    fails, cases = [], 0
+    try:
+        for leftovers in ((), ("NEEDED",), ("NEEDED", "NEEDED.ELF.2", "SLOT"), ("environment.bz2", "extra/nested")):
+            for replace in (False, True):
+                cases += 1
+                root = os.path.join(scratch, f"r{cases}")
+                cat = os.path.join(root, "cat")
+                os.makedirs(cat)
+                tmp = os.path.join(cat, ".tmp.pkg-1")
+                if leftovers:
+                    os.makedirs(tmp)
+                for f in leftovers:   # what the interrupted run had written
+                    os.makedirs(os.path.dirname(os.path.join(tmp, f)), exist_ok=True)
+                    open(os.path.join(tmp, f), "w").write("stale")
+                if replace:
+                    os.makedirs(os.path.join(cat, "pkg-0"))
+                    open(os.path.join(cat, "pkg-0", "SLOT"), "w").write("0\n")
+                pm_tmp = os.path.join(root, "pmtmp")
+                os.makedirs(pm_tmp)
+                pkg = types.SimpleNamespace(category="cat", package="pkg", fullver="1", PF="pkg-1", tracked_attributes=("slot", "description"), slot="0", description="d", ebuild=types.SimpleNamespace(bytes_fileobj=lambda: __import__("io").BytesIO(b"ebuild text")))
+                repo = types.SimpleNamespace(location=root, _metadata_rewrites={})
+                op = _obj(V.replace if replace else V.install, repo=repo, new_pkg=pkg, tmp_write_path=tmp, install_path=os.path.join(cat, "pkg-1"), remove_path=os.path.join(cat, "pkg-0"))
+                try:
+                    _raw(V.install.add_data)(op, types.SimpleNamespace(pm_tmpdir=pm_tmp))
+                    _raw((V.replace if replace else V.install).finalize_data)(op)
+                except Exception as e:
+                    fails.append({"model": {"leftovers": list(leftovers), "replace": replace}, "detail": f"install after an interrupted one raised {type(e).__name__}: {e}"})
+                    continue
+                got = {}
+                for dp, dn, fn in os.walk(os.path.join(cat, "pkg-1")):
+                    for f in fn:
+                        got[os.path.relpath(os.path.join(dp, f), os.path.join(cat, "pkg-1"))] = open(os.path.join(dp, f)).read()
+                stale = sorted(k for k, v in got.items() if v == "stale")
+                want = {"SLOT", "DESCRIPTION", "pkg-1.ebuild", "COUNTER", "PKGMANAGER"}
+                if (stale or set(got) != want) and len(fails) < 4:
+                    fails.append({"model": {"leftovers": list(leftovers), "replace": replace, "installed_files": sorted(got)},
+                                  "detail": f"{'replace' if replace else 'install'} of cat/pkg-1 after an interrupted run that had left {list(leftovers)} in .tmp.pkg-1: the installed package holds {sorted(got)}"
+                                            f" (from the interrupted run: {stale}); a complete install writes {sorted(want)}"})
+    finally:
+        shutil.rmtree(scratch, ignore_errors=True)
+    return {"name": "C29.interrupted_then_repeated.bounded_enumeration", "bound": "vdb install and replace of one package after an interrupted run that left 0..3 files (metadata files, a nested one) in its staging directory; "
+            "the installed directory compared with what a complete run writes", "cases": cases, "failures": fails}
+
+
 def _raw(f):
     """the method body itself (snakeoil's ForcedDepends wraps stages so that calling one runs its prerequisites first)"""
     return getattr(f, "sd_raw_func", f)
@@ -323,7 +373,8 @@ def _obj(cls, **fields):
 
 def tasks():
     return [
-        Task("C29.vdb", t_vdb, [(VDB, "install.finalize_data"), (VDB, "uninstall.finalize_data"), (VDB, "uninstall._hide_removed"), (VDB, "replace.finalize_data")]),
+        Task("C29.vdb", t_vdb, [(VDB, "install.finalize_data"), (VDB, "uninstall.finalize_data"), (VDB, "uninstall._hide_removed"), (VDB, "replace.finalize_data"), (VDB, "install.add_data")],
+             enumerate=enum_interrupted_then_repeated),
         Task("C29.binpkg", t_binpkg, [(BIN, "install.finalize_data"), (BIN, "uninstall.finalize_data"), (BIN, "replace.finalize_data")], enumerate=enum_crashes),
     ]
 
